@@ -587,8 +587,26 @@ where
                 std::slice::from_raw_parts(mmap.as_ptr(), file_size)
             };
             
-            std::fs::write(&self.file_path, content)
-                .map_err(|e| ZiporaError::io_error(&format!("Failed to sync to file: {}", e)))?;
+            // Replace the file atomically: write a sibling temporary file, flush it to
+            // disk, then rename it over the vector file.  A crash at any point leaves
+            // either the previously synced content or the new one, never a torn mixture.
+            let mut tmp_name = self.file_path.clone().into_os_string();
+            tmp_name.push(".sync-tmp");
+            let tmp_path = PathBuf::from(tmp_name);
+            let write_tmp = || -> std::io::Result<()> {
+                let mut file = std::fs::File::create(&tmp_path)?;
+                file.write_all(content)?;
+                file.sync_all()?;
+                Ok(())
+            };
+            if let Err(e) = write_tmp() {
+                let _ = std::fs::remove_file(&tmp_path);
+                return Err(ZiporaError::io_error(&format!("Failed to sync to file: {}", e)));
+            }
+            std::fs::rename(&tmp_path, &self.file_path).map_err(|e| {
+                let _ = std::fs::remove_file(&tmp_path);
+                ZiporaError::io_error(&format!("Failed to sync to file: {}", e))
+            })?;
         }
         Ok(())
     }
